@@ -563,7 +563,7 @@ def _arc_point_to_t_axis_points(ctx, mdl):
                             out.append((j, 'displaced outward', it.call_method(a, 'point_to_t', c + r * u * eps)))
                         return out
                     try:
-                        paths = explore(mdl, th, {})
+                        paths = explore(mdl, th, {'time_limit': 30})
                     except Undecidable as e:
                         und = und or str(e)
                         continue
@@ -617,4 +617,4 @@ def _flat_box_instances(ctx, mdl):
                     return False, 'reports (t1, t2) = (%s, %s) whose points %s and %s are %s apart' % (short(t1, 10), short(t2, 10), short(p1, 14), short(p2, 14),
                                                                                                     round(float(c[0] * c[0] + c[1] * c[1]) ** 0.5, 6))
             return True, ''
-        Obligation(ctx, 'R11.7').run(fi, 'flat boxes: %s' % label, th, judge, allowed_raises=())
+        Obligation(ctx, 'R11.7').run(fi, 'flat boxes: %s' % label, th, judge, allowed_raises=(), opts={'time_limit': 30})
